@@ -90,7 +90,7 @@ def make_field(df, m, emb, carr, names, units, vdims_arg, labels, vmap, real):
     if real:
         a = a.real.copy()
     if vmap:
-        mapping = {labels[c]: names[vmap[c] - 1] for c in range(nv)}
+        mapping = fld.scramble({labels[c]: names[vmap[c] - 1] for c in range(nv)}, sum(n) + vmap[0])
     else:
         mapping = {}
     return df.Field(mesh, nvdim=nv, value=a, vdims=vdims_arg, vdim_mapping=mapping)
